@@ -175,6 +175,43 @@ def parse_case(v, arrangement, N, opts):
     return dict(obs=o, asserts=asserts, facts=facts)
 
 
+# ------------------------------------------------------------------ add_missing_columns over a wider schema (C03)
+def wide_parse_case(v, present, N, opts):
+    """schema of four int columns c0..c3 (each with a default), add_missing_columns=True; the frame holds the subset `present`
+    (schema order, optionally with an undeclared column x) — several gaps at once, at the front, inside and at the end."""
+    names = ["c0", "c1", "c2", "c3"]
+    arr = [(c, "int") for c in present]
+    df = v.frame(arr, N, labels="l")
+    snap = H.snapshot(df)
+    lo = v.int("lo", -3, 3)
+    dfl = [v.int(f"d{i}", -3, 3) for i in range(4)]
+
+    def mk(parsing):
+        cols = {c: pa.Column(int, Check.ge(lo), default=dfl[i] if parsing else None) for i, c in enumerate(names)}
+        strict = opts.get("strict", False)
+        return pa.DataFrameSchema(cols, ordered=bool(opts.get("ordered")), add_missing_columns=parsing,
+                                  strict=(strict if parsing else (True if strict in (True, "filter") else False)))
+
+    schema = mk(True)
+    o = H.outcome(lambda: schema.validate(df, lazy=bool(opts.get("lazy"))))
+    asserts = [("channel", v.holds(channel_ok(o))), ("input_unchanged", H.equal_to_snapshot(v, df, snap))]
+    facts = dict(kind=o["kind"], reason=o.get("reason"), reasons=o.get("reasons"))
+    if o["kind"] == "accept" and is_frame(o["out"]):
+        out = o["out"]
+        facts["out_columns"] = [str(c) for c in out.columns]
+        osnap = H.snapshot(out)
+        o2 = H.outcome(lambda: mk(False).validate(out))
+        facts["revalidate_stripped"] = o2["kind"] + (":" + str(o2.get("reason")) if o2.get("reason") else "")
+        asserts.append(("fixpoint_conforms", v.holds(o2["kind"] == "accept")))
+        o3 = H.outcome(lambda: schema.validate(out, lazy=bool(opts.get("lazy"))))
+        asserts.append(("fixpoint_accepts_again", v.holds(o3["kind"] == "accept")))
+        if o3["kind"] == "accept":
+            asserts.append(("fixpoint_identity", H.equal_to_snapshot(v, o3["out"], osnap)))
+        # every declared column is there, the data columns kept their values
+        asserts.append(("fixpoint_conforms/all_declared_columns", v.holds(all(c in list(out.columns) for c in names))))
+    return dict(obs=o, asserts=asserts, facts=facts)
+
+
 # ------------------------------------------------------------------ SeriesSchema with an index schema
 def series_index_case(v, N, lazy, val_coerce, idx_coerce):
     """data: int Series with int labels; schema value dtype float when val_coerce (int->float), index dtype float
